@@ -476,6 +476,8 @@ where
                             let cl = cl.clone();
                             Rc::new(move |s: &SP::StateType| cl(s) > 0.0)
                         },
+                        pd_key: None,
+                        vc_key: None,
                     };
                     let calls: Vec<Call> = if kind == Kind::Prm {
                         vec![Call::Setup(0), Call::Construct, Call::Solve(5), Call::Construct, Call::Solve(5)]
@@ -504,6 +506,15 @@ where
                     for (inst, rr) in [(1, &recs), (2, &recs2)] {
                         for (ci, (ds, o, pan)) in digests(rr, &mut ids).into_iter().enumerate() {
                             an.out.push(json!({"ev": "stream", "inst": inst, "call": ci + 1, "draws": ds, "res": o, "pan": pan, "tag": "C07"}));
+                        }
+                    }
+                    // a third same-seed instance on a slower clock (C07, timing independence)
+                    {
+                        let cfg3 = RunCfg { tick_query: 1, ..RunCfg::default() };
+                        let recs3 = run_history(kind, &params, space.clone(), &[mk_problem()], &calls, &cfg3);
+                        let mut tids = HashMap::new();
+                        if let (Some(a), Some(b)) = (vharness::timing::epochs(&recs, &mut tids), vharness::timing::epochs(&recs3, &mut tids)) {
+                            an.out.push(json!({"ev": "timing", "a": a, "b": b}));
                         }
                     }
                     // RRT* versus RRT on the same seed / problem / budget (C17)
@@ -570,6 +581,8 @@ fn resolution_zero_probe(ctx: &mut Ctx) {
                 starts: vec![rv(&[1.0, 1.0])],
                 goal: Rc::new(BallGoal { space: space.clone(), center: rv(&[9.0, 9.0]), r: 0.5 }) as Rc<dyn HGoal<RealVectorState>>,
                 checker: Rc::new(|_s: &RealVectorState| true),
+                pd_key: None,
+                vc_key: None,
             };
             let calls = if kind == Kind::Prm { vec![Call::Setup(0), Call::Construct, Call::Solve(5)] } else { vec![Call::Setup(0), Call::Solve(5)] };
             let cfg = RunCfg { query_cap: 50_000, ..RunCfg::default() };
@@ -633,6 +646,8 @@ fn resetup_probe(ctx: &mut Ctx) {
                 starts: vec![rv(&st)],
                 goal: Rc::new(BallGoal { space: sp.clone(), center: rv(&g), r }) as Rc<dyn HGoal<RealVectorState>>,
                 checker: Rc::new(move |s: &RealVectorState| cl(s) > 0.0) as Rc<dyn Fn(&RealVectorState) -> bool>,
+                pd_key: None,
+                vc_key: None,
             }
         };
         let problems = vec![mk(&space_a, &cl_a, [10.0, 10.0], [90.0, 90.0], 5.0), mk(&space_b, &cl_b, [1.0, 5.0], [9.0, 5.0], 0.5)];
@@ -651,6 +666,80 @@ fn resetup_probe(ctx: &mut Ctx) {
         let pinfo = vec![
             ProblemInfo { start: Some(rv(&[10.0, 10.0])), goal_sat: Box::new(move |s: &RealVectorState| ga.distance(s, &rv(&[90.0, 90.0])) <= 5.0), feas: 1 },
             ProblemInfo { start: Some(rv(&[1.0, 5.0])), goal_sat: Box::new(move |s: &RealVectorState| gb.distance(s, &rv(&[9.0, 5.0])) <= 0.5), feas: 1 },
+        ];
+        let mut an = Annot::new(&geoms[0], kind, params.clone());
+        an.reset(run, desc.clone());
+        for r in &recs {
+            if let Call::Setup(i) = r.call {
+                an.set_geom(&geoms[i]);
+            }
+            an.call(r, &pinfo);
+        }
+        let shard = ctx.nruns % ctx.outs.len();
+        for ev in &an.out {
+            writeln!(ctx.outs[shard], "{}", ev).unwrap();
+            ctx.nevents += 1;
+        }
+        ctx.nruns += 1;
+        ctx.index.push(json!({"run": run, "desc": desc}));
+    }
+}
+
+/// Re-setup on a SUB-REGION of the first space with the SAME checker object (a caller who plans in
+/// one environment and narrows the workspace): nothing sampled in the larger space may survive
+/// into answers for the smaller one. A wall with a short way round inside the large space only.
+fn shrink_probe(ctx: &mut Ctx) {
+    let space_a = RealVectorStateSpace::new(2, Some(vec![(0.0, 4.0), (0.0, 8.0)])).unwrap();
+    let space_b = RealVectorStateSpace::new(2, Some(vec![(0.0, 4.0), (0.0, 6.0)])).unwrap();
+    let cl: Rc<dyn Fn(&RealVectorState) -> f64> = Rc::new(|s: &RealVectorState| sdf_box(&s.values, &[1.8, 1.0], &[2.2, 7.0]));
+    for kind in [Kind::Rrt, Kind::Star, Kind::Conn, Kind::Prm] {
+        ctx.run += 1;
+        let run = ctx.run;
+        let iters = 60u64;
+        let desc = json!({"space": "rv2-shrink", "world": "wall, way round only in the larger space", "planner": kind.name(),
+                          "probe": "re-setup on a sub-region with the same checker object"});
+        if ctx.list {
+            println!("{}", json!({"run": run, "desc": desc}));
+            continue;
+        }
+        if let Some(o) = ctx.only {
+            if o != run {
+                continue;
+            }
+        }
+        if ctx.skip.contains(&run) {
+            continue;
+        }
+        if let Some(pf) = &ctx.progress {
+            std::fs::write(pf, format!("{}", run)).ok();
+        }
+        let params = Params { maxd: 1.0, bias: 0.1, radius: if kind == Kind::Prm { 1.6 } else { 1.5 }, build_ticks: 90, seed: Some(ctx.seed * 37 + run as u64) };
+        let mk = |sp: &RealVectorStateSpace, key: usize| {
+            let cl = cl.clone();
+            Problem {
+                starts: vec![rv(&[1.0, 5.5])],
+                goal: Rc::new(BallGoal { space: sp.clone(), center: rv(&[3.0, 5.5]), r: 0.4 }) as Rc<dyn HGoal<RealVectorState>>,
+                checker: Rc::new(move |s: &RealVectorState| cl(s) > 0.0) as Rc<dyn Fn(&RealVectorState) -> bool>,
+                pd_key: Some(key),
+                vc_key: Some(0),
+            }
+        };
+        let problems = vec![mk(&space_a, 0), mk(&space_b, 1)];
+        let calls: Vec<Call> = if kind == Kind::Prm {
+            vec![Call::Setup(0), Call::Construct, Call::Solve(5), Call::Setup(1), Call::Construct, Call::Solve(5)]
+        } else {
+            vec![Call::Setup(0), Call::Solve(iters), Call::Setup(1), Call::Solve(iters)]
+        };
+        let cfg = RunCfg::default();
+        let recs = run_history_spaces(kind, &params, &[space_a.clone(), space_b.clone()], &problems, &calls, &cfg, &|_, _| {});
+        let geoms = [
+            RealGeom { space: space_a.clone(), clearance: cl.clone(), label: "rv2-shrink".to_string() },
+            RealGeom { space: space_b.clone(), clearance: cl.clone(), label: "rv2-shrink".to_string() },
+        ];
+        let (ga, gb) = (space_a.clone(), space_b.clone());
+        let pinfo = vec![
+            ProblemInfo { start: Some(rv(&[1.0, 5.5])), goal_sat: Box::new(move |s: &RealVectorState| ga.distance(s, &rv(&[3.0, 5.5])) <= 0.4), feas: 1 },
+            ProblemInfo { start: Some(rv(&[1.0, 5.5])), goal_sat: Box::new(move |s: &RealVectorState| gb.distance(s, &rv(&[3.0, 5.5])) <= 0.4), feas: 1 },
         ];
         let mut an = Annot::new(&geoms[0], kind, params.clone());
         an.reset(run, desc.clone());
@@ -732,6 +821,7 @@ fn main() {
     exec_sets(&mut ctx, se3_sets(&tier));
     resolution_zero_probe(&mut ctx);
     resetup_probe(&mut ctx);
+    shrink_probe(&mut ctx);
     for o in ctx.outs.iter_mut() {
         o.flush().unwrap();
     }
